@@ -7,6 +7,7 @@ explicit tolerances; nothing is compared float against float.
 import Spade.Extra
 import Spade.Algo.Locate
 import Spade.Algo.Insert
+import Spade.Algo.LineIter
 namespace Spade
 
 def scale1074N : Nat := 2 ^ 1074
@@ -488,6 +489,30 @@ def judgeExtra2 (hNew hOld : HCtx) (op res : Array String) (dump : Option St) : 
                 (fun _ => s!"p={p} hint={hint} nv={s.nV} nf={s.nF}"))
           | none => (hNew, [⟨"C02:model", "insert-model-failed", s!"p={p} hint={hint}"⟩])
       | _, _, _ => (hNew, [])
+    else (hNew, [])
+  | "line" | "lineh" =>
+    -- R3: the model of the line iterator, started at the implementation's first item (an
+    -- iteration between two vertex handles: at the start vertex), must yield the same items in
+    -- the same order (integer families, where the float projections are exact)
+    if exactFam hOld.fam && 2 ≤ s.nV then
+      let pq : Option (Pt × Pt × List String) :=
+        if name == "line" then
+          match parsePt (op.getD 1 "") (op.getD 2 ""), parsePt (op.getD 3 "") (op.getD 4 "") with
+          | some p, some q => some (p, q, res.toList.drop 1)
+          | _, _ => none
+        else
+          match parseNat (op.getD 1 ""), parseNat (op.getD 2 "") with
+          | some a, some b => some (s.P a, s.P b, res.toList.drop 1)
+          | _, _ => none
+      match pq with
+      | some (p, q, toks) =>
+        match toks.mapM parseItem with
+        | some items =>
+          let model := s.lineFrom p q items.head?
+          (hNew, chk (model == items) "C17:model,C12:model" "line-iterator-model-differs"
+            (fun _ => s!"p={p} q={q} impl={repr items} model={repr model}"))
+        | none => (hNew, [])
+      | none => (hNew, [])
     else (hNew, [])
   | "loch" =>
     -- R3: the code-mirroring model of locate_with_hint on the dumped links must give the very same
